@@ -233,8 +233,14 @@ class Gen:
                 refs.insert(rng.randint(0, len(refs)), {"h": hc})
         if self.allow_fixed_obj and not big and rng.random() < 0.12:
             # a component fixed to an instance of a user class (as after `model.lens = result.instance.lens`)
-            cls = rng.choice(["P1", "P2", "P3", "Lst"])
-            if cls == "Lst":
+            cls = rng.choice(["P1", "P2", "P3", "Lst", "ModelInstance"])
+            if cls == "ModelInstance":
+                # the instance of an earlier fit passed on whole (`first=result.instance`): a ModelInstance holding
+                # instances of user classes and numbers
+                kw = {"g": {"obj": "P2", "kw": {a: _finite(rng) for a in CLS_ARGS["P2"]}}, "level": _finite(rng)}
+                if rng.random() < 0.5:
+                    kw["h"] = {"obj": "P1", "kw": {"a": _finite(rng)}}
+            elif cls == "Lst":
                 # a list long enough for positions 10, 11 ... to sort before 2 as strings
                 kw = {"values": [round(rng.uniform(-9, 9), 3) for _ in range(rng.choice([2, 11, 12, 13]))], "k": _finite(rng)}
             else:
@@ -312,7 +318,12 @@ def run_program(prog, upto=None):
                     o = _walk_to(o, v["path"])
                 return o
             if "obj" in v:
-                return vlib.CLASSES[v["obj"]](**v["kw"])
+                if v["obj"] == "ModelInstance":
+                    # made the way a fit makes it (`result.instance`): the instance of a collection of fixed components
+                    # (it carries that collection's id; a hand-made `af.ModelInstance({...})` has id None and cannot be
+                    # hashed - DESIGN A.6)
+                    return af.Collection(**{k_: val(x_) for k_, x_ in v["kw"].items()}).instance_from_vector([])
+                return vlib.CLASSES[v["obj"]](**{k_: val(x_) for k_, x_ in v["kw"].items()})
             raise ValueError(v)
         return v
 
